@@ -156,10 +156,12 @@ def parse_output(text):
         h.full = full
         h.text = blk
         m2 = RESULT_RE.search(blk)
-        if m2:
+        if re.search(r"CBMC timed out|timed out|TIMEOUT", blk):
+            h.status = "timeout"
+        elif m2:
             h.status = "ok" if m2.group(1) == "SUCCESSFUL" else "failed"
         else:
-            h.status = "timeout" if re.search(r"timed out|TIMEOUT|Timeout", blk) else "error"
+            h.status = "error"
         mt = re.search(r"Verification Time: ([0-9.]+)s", blk)
         if mt:
             h.time_s = float(mt.group(1))
@@ -174,6 +176,9 @@ def parse_output(text):
         for fm in re.finditer(r"^Failed Checks: (.*)$", blk, re.M):
             if not any(x["desc"] == fm.group(1) for x in h.failed_checks):
                 h.failed_checks.append({"desc": fm.group(1), "file": "", "line": 0, "fn": ""})
+        if h.status == "failed" and not h.failed_checks and not re.search(r"\*\* \d+ of \d+ failed", blk):
+            # CBMC crashed / ran out of memory / was killed: no verdict
+            h.status = "error"
         out[h.name] = h
     return out
 
@@ -205,7 +210,7 @@ def run_kani(overlay, filters, jobs=None, harness_timeout=None, total_timeout=36
 PLAYBACK_RE = re.compile(r"/// Test generated for harness `([^`]*)`\s*\n\s*///\s*\n\s*/// Check for `(\w+)`: \"([^\n]*)\"\s*\n\s*#\[test\]\s*\n\s*fn (\w+)\(\) \{(.*?)\n\s*\}\n", re.S)
 
 
-def counterexample(overlay, harness_full, features=None, timeout=1800, returns=False):
+def counterexample(overlay, harness_full, features=None, timeout=900, returns=False):
     """Asks Kani for the concrete values of a failing harness (concrete playback), then executes
     the harness natively on them against the real code (`cargo kani playback`).
     Returns a dict for the replay file."""
@@ -214,10 +219,14 @@ def counterexample(overlay, harness_full, features=None, timeout=1800, returns=F
     feat = ["--no-default-features"] + (["--features", features] if features else [])
     cmd = ["cargo", "kani"] + KANI_FLAGS + ["-Z", "concrete-playback", "--concrete-playback=print",
                                             "--target-dir", os.path.join(overlay, "target")] + feat + \
-          ["--harness", short, "--output-format", "terse"]
+          ["--harness", short, "--output-format", "terse", "--harness-timeout", "%ds" % timeout]
     env = {"CARGO_NET_OFFLINE": "true", "CARGO_TERM_COLOR": "never"}
-    rc, out, err, wall = common.run(cmd, cwd=overlay, env=env, timeout=timeout)
+    rc, out, err, wall = common.run(cmd, cwd=overlay, env=env, timeout=timeout + 300)
     text = out + "\n" + err
+    if re.search(r"^VERIFICATION:- SUCCESSFUL", text, re.M) and not returns and "as expected" not in text:
+        rep["note"] = "the re-run for counterexample extraction verified successfully: nothing refuted"
+        rep["rerun_successful"] = True
+        return rep
     tests = []
     for m in PLAYBACK_RE.finditer(text):
         h, kind, desc, fname, body = m.groups()
